@@ -120,7 +120,7 @@ def judge(W, prop, cfg, ops, viols, summary, base_seed, i):
             summary["violation"] = rep
             return
         summary["known"].append({"id": k["id"], "what": k["what"], "class": rep["violation_class"]})
-        drop = {op["id"] for op in rep["ops"] if op["op"] == "mutate"}
+        drop = report.peel_ids(k, rep)
         cur = [op for op in cur if op["id"] not in drop]
         _, viols = W.run_ops(cur, cfg["passive"], second=(i % 4 == 0), cold_seed=cfg.get("cold_seed"))
 
